@@ -1,7 +1,20 @@
 /-
-S — delivery of a network message (C05), written from the property text and docs/network_docs:
-what goes on the air for one hop, and what "delivered exactly once, intact" means on the nodes'
-queues.
+S — delivery of a network message (C05): what goes on the air for one hop, and what "delivered exactly
+once, intact" means on the nodes' queues.
+
+Two kinds of definitions live here, and only the first kind is a specification:
+
+* INDEPENDENT of the implementation model, written from the property text and docs/network_docs:
+  `fragStep`, `hdrBytes`, `fragPlan` (which fragments, with which headers and payload bytes), `callerFrame`,
+  `DeliveredOnce` (what "exactly once, intact, to nobody else" means on the queues).  They call nothing of
+  `NrfModel/Net/Node.lean`.
+* NOT independent: `sendFrags` and `txPath` import `NrfModel.Net.Node` and call the judged model's own
+  functions (`rfSend`, `fragRetry`, `txStandbyFor`, `pipeAddr`, `Rf24.setListen`, `Rf24.setAutoAckAttr`, …).
+  They are a **re-bracketing of the model's own control flow** (`nodeWriteToPipe` with its fragment loop
+  replaced by the execution of `fragPlan`), not an independent specification.  A theorem "model = `txPath`"
+  (`C05_local_tx`) therefore says only: the fragment loop of the model executes exactly the plan `fragPlan`;
+  every other phrase of their docstrings (auto-ack iff unicast, retry bounds) is a reading of the copy, not
+  a checked requirement.
 -/
 import NrfModel.Net.Node
 import NrfModel.Net.Frag
@@ -33,7 +46,8 @@ def fragPlan (msg : Bytes) (total msgT : Nat) : Nat → Header → List (Header 
     (st.1, hdrBytes st.1 ++ pySlice msg ((total - (n + 1)) * MAX_FRAG_SIZE) st.2)
       :: fragPlan msg total msgT n st.1
 
-/-- carry out a plan: per fragment, show its header in `frame_buf`, hand the payload to the radio
+/-- (re-bracketing of the model's control flow, calls model functions — see the file header)
+    carry out a plan: per fragment, show its header in `frame_buf`, hand the payload to the radio
     (one `send`, then up to three rounds of 2 ms pause + `_tx_standby(tx_timeout)`); the first
     fragment that stays unsent ends the transmission with `False` -/
 def sendFrags : Nat → List (Header × Bytes) → NetM Bool
@@ -47,7 +61,8 @@ def sendFrags : Nat → List (Header × Bytes) → NetM Bool
     if rest.isEmpty then return true
     sendFrags f rest
 
-/-- One hop on the air, for a frame in `frame_buf` that is not for this node itself: auto-ack on
+/-- (re-bracketing of the model's `nodeWriteToPipe`, calls model functions — see the file header)
+    One hop on the air, for a frame in `frame_buf` that is not for this node itself: auto-ack on
     pipe 0 exactly for unicasts, stop listening, transmit to the pipe address of the hop; a
     message of at most 24 bytes as **one** payload `Frame.pack` (retried by re-sending for at most
     `tx_timeout` ms), a longer one according to its fragment plan, after which the frame shows its
